@@ -46,6 +46,7 @@ def run(rep, tier, seed):
     progs = gen.corpus_2x2()[:: (3 if tier == 'quick' else 1)]
     progs += gen.random_progs(rng, 2500 if tier == 'quick' else 40000)
     progs += gen.named_machines()[:: (4 if tier == 'quick' else 1)]
+    progs += gen.degenerate_programs()
     # leaves of the real tree generator (3x2..2x4): the deciders' everyday inputs; here the per-window answers of CPS are
     # NOT monotone in the window size (added after seeded change C15-m2, which skipped the small windows)
     nleaf0 = len(progs)
